@@ -51,6 +51,12 @@ type c09Print struct {
 	CONVFMT string     `json:"convfmt,omitempty"`
 	Groups  [][]cp.Arg `json:"groups"` // one print statement per group
 	ToFile  bool       `json:"tofile,omitempty"`
+	// Extension (see c09ext.go): any of these set makes it an "extended" print probe.
+	OutMode string  `json:"outmode,omitempty"` // "" | "csv" | "tsv" | "csv;" (CSV with separator ';')
+	ViaVar  bool    `json:"viavar,omitempty"`  // OUTPUTMODE assigned in BEGIN instead of Config.OutputMode
+	Dest    string  `json:"dest,omitempty"`    // "" stdout | "file" | "devstdout" | "pipe"
+	ORS     *string `json:"ors,omitempty"`     // user-set ORS / OFS (default output mode only)
+	OFS     *string `json:"ofs,omitempty"`
 }
 
 // c09Case is the replayable case: exactly one of the two is set.
@@ -112,6 +118,11 @@ type c09Run struct {
 }
 
 func c09Exec(c *core.Ctx, src, stdin string, chars bool, file string) c09Run {
+	return c09ExecCfg(c, src, stdin, file, &interp.Config{Chars: chars})
+}
+
+// c09ExecCfg runs src with the given configuration (Stdin is filled in here).
+func c09ExecCfg(c *core.Ctx, src, stdin string, file string, cfg *interp.Config) c09Run {
 	r := c09Run{src: src}
 	prog, err, pm := run.Parse(src, nil)
 	if pm != "" {
@@ -125,7 +136,8 @@ func c09Exec(c *core.Ctx, src, stdin string, chars bool, file string) c09Run {
 	if file != "" {
 		_ = os.Remove(file)
 	}
-	o := run.Exec(prog, &interp.Config{Stdin: strings.NewReader(stdin), Chars: chars}, run.Opts{})
+	cfg.Stdin = strings.NewReader(stdin)
+	o := run.Exec(prog, cfg, run.Opts{})
 	r.out = []byte(o.Stdout)
 	r.err, r.panicky, r.steplim = o.Err, o.Panic, o.StepLimit
 	if file != "" {
@@ -328,6 +340,7 @@ func (k *c09Checker) checkProg(p *c09Prog) {
 		c.Count("programs_with_CONVFMT_set", 1)
 	}
 	wants := make([]cp.Want, len(p.Items))
+	pers := make([][]*cp.Want, len(p.Items))
 	errIdx := -1
 	formats := map[string]bool{}
 	for i, it := range p.Items {
@@ -344,6 +357,7 @@ func (k *c09Checker) checkProg(p *c09Prog) {
 			return
 		}
 		wants[i] = w
+		pers[i] = per
 		k.coverItem(p, it, per)
 	}
 	if len(formats) > 100 {
@@ -365,6 +379,17 @@ func (k *c09Checker) checkProg(p *c09Prog) {
 		it := p.Items[errIdx]
 		c.Count("error_expected_cases", 1)
 		c.Cover("error_kinds", it.WantErr)
+		for _, prev := range p.Items[:errIdx] {
+			if prev.Format() == it.Format() {
+				// the failing format was used before on this interpreter (format cache)
+				if len(formats) > 100 {
+					c.Count("error_after_same_format_used_cache_full", 1)
+				} else {
+					c.Count("error_after_same_format_used", 1)
+				}
+				break
+			}
+		}
 		c.NonTrivial(p.Mode + "|err|" + it.Key())
 		switch {
 		case r.err == "":
@@ -412,6 +437,11 @@ func (k *c09Checker) checkProg(p *c09Prog) {
 			break
 		}
 		w := wants[i]
+		if w.DontCare != "" && it.Seg && it.NConv() > 1 {
+			// a segmented call is compared conversion by conversion (c09ext.go)
+			k.checkSegmented(p, i, recs[i], pers[i])
+			continue
+		}
 		if w.DontCare != "" {
 			c.Count("dontcare_calls", 1)
 			c.Cover("dontcare_reasons", w.DontCare)
@@ -422,6 +452,7 @@ func (k *c09Checker) checkProg(p *c09Prog) {
 		c.NonTrivial(fmt.Sprintf("%s|%v|%s", p.Mode, p.Chars, it.Key()))
 		if it.NConv() > 1 {
 			c.Count("multi_conversion_calls", 1)
+			k.coverMulti(p, it, pers[i])
 		}
 		if w.Matches(recs[i]) {
 			if c.WantSample() && i == len(p.Items)/2 && len(it.Key()) < 120 {
@@ -1156,7 +1187,10 @@ func init() {
 		Rule: "probe programs of printf/sprintf calls: (a) the cross-product flag subsets (32) x width x precision x 13 conversions x argument pool " +
 			"(complete at thorough, a seeded sample of its units at quick), (b) a random layer (flag order/repetition, widths <=512, precisions <=300, '*' in [-64,64], " +
 			"integers of every int64 magnitude, floats of every decimal magnitude, ASCII/multi-byte/invalid-UTF-8 strings, numeric-string fields, several conversions and %% per format, " +
-			"repeated formats, >100 formats per interpreter), (c) conversion-letter alias programs, (d) widths/precisions above 1e6, (e) error-expected formats, (f) print with 16 OFMT values; " +
+			"repeated formats, >100 formats per interpreter), (c) conversion-letter alias programs, (d) widths/precisions above 1e6, (e) error-expected formats, (f) print with 16 OFMT values, " +
+			"(g) calls with 2-5 %c conversions (numbers of 1-4-byte and invalid codes, numeric fields, strings; flags/widths/'*'), (h) calls with 2-6 mixed conversions with at least one %c, " +
+			"(i) one format used 4-9 times on one interpreter with arguments of other provenances and counts, ending in half of the programs with too few arguments (cached and cache-full), " +
+			"(j) print in CSV/TSV output mode (Config.OutputMode and OUTPUTMODE in BEGIN, separator , tab ;) and with user ORS/OFS, to stdout, a file, a pipe and /dev/stdout, OFMT != CONVFMT; " +
 			"sprintf, printf to stdout and printf to a file, byte and character mode; non-trivial = distinct (mode, char mode, format, arguments) whose output was compared with libc " +
 			"(don't-care calls and repeated calls do not count)",
 		Assumptions: []string{
@@ -1164,6 +1198,8 @@ func init() {
 			"only ISO-C-defined specifications are generated: '#' only with o x X e E f g G; '0' not with c s; no precision with c",
 			"don't-care (run, not compared): sign of a printed NaN (either accepted); integer conversions of values outside int64; %c of \"\", of a non-integral/negative number, of a code >255 in byte mode or an invalid code point in char mode; width with a multi-byte %c or %s in char mode; %s of a non-finite or beyond-int64 number; strings containing NUL; print of non-finite, -0 or beyond-int64 integral numbers; %a/%A",
 			"string-to-number conversion of arguments is restricted to plain decimal prefixes (hex, inf/nan spellings and non-ASCII blanks belong to C05)",
+			"CSV/TSV output mode: a print argument is first formatted as in the default mode (string as is, integral number as integer, other number with OFMT by libc) and then encoded as one field by encoding/csv's quoting rules; how a lone empty field is written is C08's question (don't-care); a don't-care number next to an empty or number-like OFS makes the whole statement a don't-care",
+			"segmented calls (conversions separated by \\x04) are compared conversion by conversion, so a don't-care conversion does not hide its neighbours",
 		},
 		NBatches: func(t core.Tier) int { return n(t, 16, 64) },
 		// each batch is a single-threaded workload; 16 batches x 16 GC workers only fight each other
@@ -1176,6 +1212,13 @@ func init() {
 				"error_expected_cases": n(t, 300, 2500), "error_kinds": 3, "print_values_compared": n(t, 4000, 80000), "ofmt_values": 15,
 				"multi_conversion_calls": n(t, 6000, 200000), "cache_overflow_programs": n(t, 150, 5000), "negative_star_args": n(t, 15000, 400000),
 				"libc_calls": n(t, 100000, 3000000), "programs_with_CONVFMT_set": n(t, 200, 8000),
+				// extension (c09ext.go)
+				"multi_numeric_c_calls_charmode": n(t, 2500, 60000), "multi_numeric_c_calls_bytemode": n(t, 2000, 50000), "multi_c_classes": 20,
+				"segmented_conversions_compared": n(t, 4000, 100000), "mixed_c_calls_charmode": n(t, 2500, 60000), "mixed_c_calls_bytemode": n(t, 2200, 55000),
+				"star_with_c_calls": n(t, 2500, 60000), "error_after_same_format_used": n(t, 150, 4000), "error_after_same_format_used_cache_full": n(t, 15, 400),
+				"print_csv_values_compared": n(t, 3000, 45000), "print_tsv_values_compared": n(t, 2000, 30000), "print_default_values_compared": n(t, 2000, 30000),
+				"print_csv_nonintegral_OFMT_ne_CONVFMT": n(t, 800, 12000), "print_tsv_nonintegral_OFMT_ne_CONVFMT": n(t, 500, 8000),
+				"print_ext_modes": 7, "print_ext_dests": 12, "print_ext_ofmt_values": 16,
 			}
 		},
 		Run: func(c *core.Ctx) {
@@ -1239,6 +1282,33 @@ func init() {
 					k.checkPrint(p)
 				}
 			}
+			// ---- extension (c09ext.go) ----
+			xrng := c.Rand("gen-ext")
+			k.m.ConvFmt = nil
+			// (g) 2-5 %c conversions in one call, byte and character mode
+			k.gen = "multi-c"
+			for i, total := 0, n(c.Tier, 640, 16000)/c.NBatches; i < total; i++ {
+				k.checkProg(c09MultiCProg(xrng, k.m))
+			}
+			// (h) mixed conversions in one call (%c %s %d %c, %*d with %c, ...)
+			k.gen = "multi-mixed"
+			for i, total := 0, n(c.Tier, 480, 12000)/c.NBatches; i < total; i++ {
+				k.checkProg(c09MixedProg(xrng, k.m))
+			}
+			// (i) one format string used repeatedly with other argument types and counts
+			k.gen = "repeat-format"
+			for i, total := 0, n(c.Tier, 640, 16000)/c.NBatches; i < total; i++ {
+				k.checkProg(c09RepeatProg(xrng, k.m))
+			}
+			// (j) print in CSV/TSV output mode, to file / pipe / "/dev/stdout", with user ORS/OFS
+			k.gen = "print-ext"
+			xprng := c.RandGlobal("print-ext")
+			for i, total := 0, n(c.Tier, 640, 9600); i < total; i++ {
+				p := c09PrintXProg(xprng, i, pool)
+				if c.Mine(i) {
+					k.checkPrintX(p)
+				}
+			}
 		},
 		Replay: func(c *core.Ctx, raw json.RawMessage) {
 			var cs c09Case
@@ -1264,6 +1334,12 @@ func init() {
 				r := cs.Prog.exec(c)
 				fmt.Printf("goawk: err=%q output=%s\n", r.err, core.Q(string(r.out)))
 				k.checkProg(cs.Prog)
+			case cs.Print != nil && cs.Print.extended():
+				src, stdin := cs.Print.sourceX(filepath.Join(c.WorkDir(), "printx.txt"))
+				fmt.Printf("program (%s):\n%sstdin: %q\n", cs.Print.modeTag(), src, stdin)
+				r := cs.Print.execX(c)
+				fmt.Printf("goawk: err=%q output=%s\n", r.err, core.Q(string(r.out)))
+				k.checkPrintX(cs.Print)
 			case cs.Print != nil:
 				src, stdin := cs.Print.source(filepath.Join(c.WorkDir(), "print.txt"))
 				fmt.Printf("program:\n%sstdin: %q\n", src, stdin)
